@@ -8,6 +8,8 @@ MC_NOTE = ("Trusted: TLC, the TLA+ specification as a faithful reading of the pr
            "stated small constants; random beyond.")
 
 # id -> (built?, technique, level text, design ref, note)
+IND_TECH = "; Apalache proves the state clauses inductive for <= N orders with unbounded integers (BookInd.tla, tied to BookOps.tla by a TLC lock-step, BookIndMC.tla)"
+
 BOOK_TECH = "TLA+ spec (BookOps/BookProps/Book.tla) model-checked by TLC; TLC-generated histories replayed into the real OrderBook with full-state comparison; recorded random traces validated by TLC (BookTrace.tla, with the implementation-shaped model BookImpl.tla run in lock-step and bound through the entry keys of the JSON snapshot)"
 
 ENV_TECH = "TLA+ spec (MarketOps.tla + EnvGen.tla): TLC enumerates every bounded path and, by power-set construction over all permutations, the complete set of outcomes allowed per path; real Env/MarketEnv run per path under several seeds: outcome-set membership (hook-free) + exact match for the hook-reported schedule; long random runs recorded from the real environments validated by TLC (EnvTrace.tla: hook schedule, or hook-free schedule inference)"
@@ -16,8 +18,8 @@ TABLE = {
     "C01": (BOOK_TECH + "; drain probe reveals queue order",
             "Model checking of the reference matching engine's priority clauses on the specification, exhaustive replay of every bounded history into the real book (every intermediate state compared, queue order revealed by a drain probe), and TLC validation of long random traces recorded from the real book.",
             "6 C01"),
-    "C02": (BOOK_TECH + "; ViewsO recomputation from the logged order table at every event",
-            "Views computed from the queue equal views recomputed from the order table alone on every model state (TLC); every generated history's views compared with the real getters (ticks 1-2, levels 1-3, crossed books, reloads); on random traces TLC recomputes every view from the logged get_orders() at every event (ticks 1..10, levels 1..24).",
+    "C02": (BOOK_TECH + "; ViewsO recomputation from the logged order table at every event" + IND_TECH,
+            "Views computed from the queue equal views recomputed from the order table alone on every model state (TLC); every generated history's views compared with the real getters (ticks 1-2, levels 1-3, crossed books, reloads); on random traces TLC recomputes every view from the logged get_orders() at every event (ticks 1..10, levels 1..24); high-price regime (prices just below 2^32) and limit price 0; cross-feature stages (equal timestamps, requests before placement); Apalache: queues = active orders, sorted, never crossed while trading was never off, is inductive for <= 3 (thorough: 4) orders over all integers.",
             "6 C02"),
     "C03": (BOOK_TECH + "; ledger clauses (append-only, well-formed, conservation against submitted volumes, counter) evaluated per event",
             "Ledger clauses as TLC invariants/action properties on the model; trade log and counter are part of the compared projection of every generated history; on recorded traces TLC audits append-only, admission, conservation (against the volumes the harness submitted) and the counter.",
